@@ -672,6 +672,9 @@ class SimNetwork:
         if host is None:
             raise _socket.gaierror(_socket.EAI_NONAME, "Name or service not known")
         h = host.lower() if isinstance(host, str) else host
+        if isinstance(host, str) and not _looks_like_ip(h):
+            # the real resolver encodes the name with the idna codec first: an empty or over-long label is a UnicodeError there
+            host.encode("idna")
         ips = self.hosts.get(h)
         if ips is None:
             # literal addresses resolve to themselves
